@@ -23,6 +23,11 @@ func TestCheck(t *testing.T) {
 			c.Set("format_family_size", len(fam))
 			c.Set("format_family_done", done)
 			c.Set("format_family_rule", "message format generation (v0, v1, record batch v2, produce v7) x codec (none, gzip, snappy, lz4, zstd) x batch composition (1-2 partitions, 3-5 messages, input-first so that several messages and partitions share a request) x acks x flush setting, keys (nil/empty/non-empty) and headers on some messages; default schedule plus every schedule with <=1 (quick) / <=2 (thorough) deviations incl. retried and deduplicated batches; the simulated broker decodes every request and the oracle compares wire and log content and every reported (partition, offset) with what was submitted")
-			return ok
+			sizes := prodrig.C04Sizes(ev.Tier() == "thorough")
+			done2, ok2 := e.ExploreMany(sizes, 0, 1)
+			c.Set("size_family_size", len(sizes))
+			c.Set("size_family_done", done2)
+			c.Set("size_family_rule", "values padded to every size from 50 to 70 bytes and around 8185/8247 bytes (thorough: every size 8176..8256) - record bodies on both sides of the points where a record's length prefix grows - x (message set v1, record batch) x (none, gzip), two messages of one partition per request, default schedule")
+			return ok && ok2
 		})
 }
